@@ -232,21 +232,49 @@ Fixpoint nf_pow (A : list term) (n : nat) : option (list term) :=
 (* multiply the terms B (possibly containing deltas) by the expression whose NF at
    point x is given by [fa x]: non-delta terms use the value at the current point,
    delta terms the value at their location (sifting; orders >= 1 need a constant) *)
-Definition mul_sift (E : env) (fa : Qc -> option (list term)) (a_const : bool) (B : list term) : option (list term) :=
+Fixpoint binom (n k : nat) : nat :=
+  match n, k with _, O => 1%nat | O, S _ => 0%nat | S n', S k' => (binom n' k' + binom n' (S k'))%nat end.
+Definition qnat (n : nat) : Qc := Q2Qc (inject_Z (Z.of_nat n)).
+(* Leibniz rule for  M(x) delta^(n)(x - loc)  with  M = c e^{j(u x + v)} e^{c0}:
+   sum_k (-1)^k C(n,k) (j u)^k M(loc) delta^(n-k) *)
+Definition leib (P : Qc) (loc : lp) (n : nat) (b t : term) : option (list term) :=
+  let '(c2, c1, _) := trx t in
+  if negb (qz c2 && qz c1) then None else
+  match spec_at P loc t with
+  | Some t0 =>
+      let uP := lp_val P (tu t) in
+      omap (fun k => t_mul (t_scale (cimul (qci_of ((if Nat.even k then 1 else - (1)) * qnat (binom n k))) (cipow (QI 0 uP) k)) t0)
+                           (T (tc b) (Some ((n - k)%nat, loc)) (tu b) (tv b) (trx b) (tat b)))
+           (seq 0 (S n))
+  | None => None end.
+Fixpoint oconcat {A} (l : list (option (list A))) : option (list A) :=
+  match l with [] => Some [] | Some x :: r => match oconcat r with Some y => Some (x ++ y) | None => None end | None :: _ => None end.
+Definition mul_sift (E : env) (fa : Qc -> option (list term)) (a_const a_exp : bool) (B : list term) : option (list term) :=
   let step (acc : option (list term)) (b : term) :=
     match acc with None => None | Some out =>
       match td b with
       | None => match fa (e_x0 E) with Some A => match nf_mul A [b] with Some r => Some (out ++ r) | None => None end | None => None end
       | Some (n, loc) =>
-          if (Nat.eqb n 0 || a_const) then
-            match fa (lp_val (e_P E) loc) with
-            | Some A => match omap (spec_at (e_P E) loc) A with
-                        | Some A' => match nf_mul A' [b] with Some r => Some (out ++ r) | None => None end
-                        | None => None end
-            | None => None end
-          else None
+          match fa (lp_val (e_P E) loc) with
+          | Some A =>
+              if (Nat.eqb n 0 || a_const) then
+                match omap (spec_at (e_P E) loc) A with
+                | Some A' => match nf_mul A' [b] with Some r => Some (out ++ r) | None => None end
+                | None => None end
+              else if a_exp then
+                match oconcat (map (leib (e_P E) loc n b) A) with Some r => Some (out ++ r) | None => None end
+              else None
+          | None => None end
       end end in
   fold_left step B (Some []).
+(* the variable occurs only inside exponentials *)
+Fixpoint var_in_exp_only (e : fn) : bool :=
+  match e with
+  | Var => false | Rec _ => false
+  | App HExp _ => true
+  | Add a b | Mul a b | Trp a b => var_in_exp_only a && var_in_exp_only b
+  | Neg a | Inv a | Pw a _ | App _ a | Dl _ a => var_in_exp_only a
+  | _ => true end.
 Definition has_delta (B : list term) : bool := existsb (fun t => match td t with Some _ => true | None => false end) B.
 
 Fixpoint nfe (E : env) (e : fn) {struct e} : option (list term) :=
@@ -259,8 +287,8 @@ Fixpoint nfe (E : env) (e : fn) {struct e} : option (list term) :=
     | Mul a b =>
         match nfe E a, nfe E b with
         | Some A, Some B =>
-            if has_delta B then (if has_delta A then None else mul_sift E (fun x => nfe (with_x0 E x) a) (negb (has_var a)) B)
-            else if has_delta A then mul_sift E (fun x => nfe (with_x0 E x) b) (negb (has_var b)) A
+            if has_delta B then (if has_delta A then None else mul_sift E (fun x => nfe (with_x0 E x) a) (negb (has_var a)) (var_in_exp_only a) B)
+            else if has_delta A then mul_sift E (fun x => nfe (with_x0 E x) b) (negb (has_var b)) (var_in_exp_only b) A
             else nf_mul A B
         | _, _ => None end
     | Pw a n => match nfe E a with Some A => if has_delta A then None else nf_pow A n | None => None end
